@@ -384,7 +384,7 @@ def run(ctx):
                 r.bad("count|" + strat, "%s::run no longer reports its cursor as the byte count" % strat, fn=f, construct="byte_count")
                 continue
             ebc = ExprBuilder(bc)
-            rets = [ebc.rvalue(st["rv"]) for bb, j, st in bc.stmts() if st["k"] == "assign" and st["place"]["l"] == 0 and not st["place"]["p"]]
+            rets = [ebc.local(0)]
             fr_ = facts.raw.fns.get(f.path, f)
             fin_r = fr_.calls_to(CORE + "::finish")
             if fin and fin_r and mentions_call(ExprBuilder(fr_).operand(fin_r[0].args[1]), bc.path) and rets and \
